@@ -847,6 +847,7 @@ class Context:
         self.pc_decisions = []  # the branch conditions taken (without bounds / assumptions)
         self.tentative = False
         self.tentative_ids = []
+        self.soft = []  # non-fatal counter-examples of this path
         self.positive = set()  # atom ids known > 0 on this path (declared lower bound > 0)
         self.sign_cache = {}
 
@@ -1102,7 +1103,7 @@ class Context:
             if r == z3.sat:
                 self.model = self.solver.model()
 
-    def prove(self, c, label, detail=None):
+    def prove(self, c, label, detail=None, fatal=True):
         """Obligation: c holds for every value of every symbolic variable on this path."""
         st = self.stats
         st.obligations += 1
@@ -1130,7 +1131,11 @@ class Context:
             st.inconclusive += 1
             return None
         m = self.solver.model()
-        raise Counterexample(label, self.model_values(m), detail)
+        ce = Counterexample(label, self.model_values(m), detail)
+        if not fatal:
+            self.soft.append(ce)  # reported like any counter-example, but the path goes on
+            return False
+        raise ce
 
     def model_values(self, m=None):
         if m is None:
@@ -1258,6 +1263,12 @@ def explore(fn, max_paths=100000, deadline=None, query_timeout_ms=10000, on_path
             stats.aborted += 1
         if pr.status == "cex":
             cexs.append(pr)
+        for ce in c.soft:
+            spr = PathResult()
+            spr.status, spr.cex, spr.decisions, spr.trace, spr.nsym = "cex", ce, pr.decisions, pr.trace, pr.nsym
+            cexs.append(spr)
+            if on_path is not None:
+                on_path(spr, c)
         if on_path is not None:
             on_path(pr, c)
         if keep_paths:
